@@ -135,7 +135,7 @@ func c18(c *Ctx) {
 						}
 					}
 				}
-				if fromRepo(bo.X) && fromRepo(bo.Y) && !fromReg(bo.X) {
+				if fromRepo(bo.X) && fromRepo(bo.Y) && !fromReg(bo.X) && firstSegment(bo.X) && firstSegment(bo.Y) {
 					if bo.Referrers() != nil {
 						for _, r := range *bo.Referrers() {
 							if _, ok := r.(*ssa.Return); ok {
@@ -435,6 +435,34 @@ func c18(c *Ctx) {
 				}
 			}
 		}
+		// names is decided per rule: the slice ranged over in the names loop is never carried over from the previous rule
+		var outer map[*ssa.BasicBlock]bool
+		for _, l := range cfgx.Loops(ex) {
+			if outer == nil || len(l) > len(outer) {
+				outer = l
+			}
+		}
+		carried := false
+		nRanges := 0
+		if outer != nil {
+			oh := cfgx.LoopHeader(outer)
+			for _, b := range ex.Blocks {
+				for _, in := range b.Instrs {
+					// range over a []string inside the outer loop: `len(names)` of the rangeindex lowering
+					ci, ok := in.(*ssa.Call)
+					if !ok || cfgx.CalleeName(ci) != "builtin.len" || !outer[b] {
+						continue
+					}
+					nRanges++
+					for _, leaf := range append(phiLeaves(ci.Call.Args[0]), ci.Call.Args[0]) {
+						if ph, ok := leaf.(*ssa.Phi); ok && ph.Block() == oh {
+							carried = true
+						}
+					}
+				}
+			}
+		}
+		c.R.Check(!carried && nRanges > 0, load.FuncName(ex)+": names decided per rule", c.pos(ex.Pos()), "no slice ranged over inside the per-rule loop is carried over from the previous rule", "the names a rule is expanded with can be carried over from the previous rule: a rule without resourceNames is checked more narrowly than it is granted")
 		c.R.Check(good, load.FuncName(ex)+": empty names = wildcard", c.pos(ex.Pos()), "an empty ResourceNames list is separated from non-empty ones (and mapped to the wildcard)", "Expand does not treat an empty ResourceNames list specially")
 	}
 
@@ -554,4 +582,31 @@ func boolStr(b bool, s string) string {
 		return s
 	}
 	return ""
+}
+
+// firstSegment: v is the first "/"-separated segment of a string, in one of
+// the enumerated idioms: strings.Split(x,"/")[0], strings.SplitN(x,"/",n)[0],
+// first result of strings.Cut(x,"/").
+func firstSegment(v ssa.Value) bool {
+	// load of IndexAddr(split result, 0)
+	if ld, ok := v.(*ssa.UnOp); ok {
+		if ia, ok := ld.X.(*ssa.IndexAddr); ok {
+			if n, ok := cfgx.ConstInt(ia.Index); ok && n == 0 {
+				if ci, ok := ia.X.(*ssa.Call); ok {
+					nm := cfgx.CalleeName(ci)
+					if nm == "strings.Split" || nm == "strings.SplitN" {
+						sep, ok := cfgx.ConstString(ci.Call.Args[1])
+						return ok && sep == "/"
+					}
+				}
+			}
+		}
+	}
+	if ex, ok := v.(*ssa.Extract); ok && ex.Index == 0 {
+		if ci, ok := ex.Tuple.(*ssa.Call); ok && cfgx.CalleeName(ci) == "strings.Cut" {
+			sep, ok := cfgx.ConstString(ci.Call.Args[1])
+			return ok && sep == "/"
+		}
+	}
+	return false
 }
